@@ -10,7 +10,7 @@ MANIFEST = {
              "in use elsewhere, are SMT variables) - hence histories of any length over the pool; (BMC) all histories "
              "of depth 3/4 from freshly constructed universes. Every step must succeed, establish the requested "
              "binding and preserve the invariant. A separate configuration proves that the five rule attributes read "
-             "back their constructor arguments (symbolic bools / a whitelist dict) and reject assignment.",
+             "back their constructor arguments (symbolic bools / a whitelist dict, also after the caller edits the outer or an inner dictionary it passed) and reject assignment.",
     "note": "Bounds: 2 (quick) / 3 (thorough) universes and one law set more than universes (+1 universe and law set "
             "created by a step). Law sets constructed with applies_to= are outside the statement (only assignments and "
             "universe constructions are). Trusted: pysym (validated per path on CPython), z3.",
